@@ -440,4 +440,27 @@ PLANS["C05"] = {
     "assumptions": ["dump via public read API", "cut-offs are read once per process from the environment"],
 }
 
+def c01_jobs(tier, seed, bin_dir, replay):
+    if replay:
+        return [eggmon(bin_dir, "exec", "replay", seed, tier, extra={"file": replay})]
+    q = tier == "quick"
+    js = shards(bin_dir, "c01", seed, tier, 2000, 100000)
+    js.append(eggmon(bin_dir, "c01", "c01-par4", seed * 1000 + 99, tier, n=(60 if q else 5000), threads=4, env=ALL_ZERO, extra={"big-every": 0}))
+    # threshold-crossing databases under the parallel rebuild configuration
+    js.append(eggmon(bin_dir, "c01", "c01-big-par4", seed * 1000 + 98, tier, n=(1 if q else 12), threads=4,
+                     env={"EGGLOG_PARALLEL_REBUILD_CUTOFF": "0", "EGGLOG_PARALLEL_TABLE_OP_CUTOFF": "0"}, extra={"big-every": 1}))
+    return js
+
+
+PLANS["C01"] = {
+    "jobs": c01_jobs,
+    "level": "exploration",
+    "technique": "reference-model runtime monitor: naive congruence-closure + nested-loop interpreter run in lock-step with the engine; canonical dumps, check outcomes and sampled pairwise (check (= t1 t2)) questions compared after every command",
+    "level_text": "Generated monotone histories (rule-free; with rules, rewrites and schedules; congruence-chain templates; >10 000-row tables with a few unions so that the incremental rebuild runs) are executed on the engine and on a ~500-line reference interpreter (explicit partition, rebuild fixpoint, nested-loop matching). After every command the databases must be equal up to renaming of ids, every check must agree, and sampled pairs of ground terms up to depth 2 (3 in thorough) must be reported equal exactly when the reference closure says so - negative answers included. Serial and 4-thread/cut-off-0 configurations.",
+    "level_note": "A disagreement is reported as a violation only after the reference model passed its own self-check (canonical rows, unique keys = its partition is a congruence containing every asserted union; it is the least one by construction). Extraction landing in the class is C07's membership check. Reach is bounded by the generator's grammar (no containers here: C14).",
+    "floors": {"quick": {"dump_comparisons": 40000, "pair_questions": 400000, "pair_questions_equal": 20000, "histories_congruence_worked": 1000, "path:table_rebuild_incremental": 1, "big_cases": 4},
+               "thorough": {"dump_comparisons": 2000000, "pair_questions": 40000000, "pair_questions_equal": 1000000, "histories_congruence_worked": 50000, "path:table_rebuild_incremental": 100, "big_cases": 100}},
+    "assumptions": ["dump via public read API", "reference model = harness/eggmon/src/model.rs"],
+}
+
 NOT_APPLICABLE = {}
